@@ -141,6 +141,16 @@ MUTANTS = [
     ("eulerian-registration-contiguous-copy", "sopht/utils/io.py", "            self.eulerian_fields[field_name] = field", "            self.eulerian_fields[field_name] = np.ascontiguousarray(field)", ["C17", "C18"]),
     ("unnamed-grid-counter-stuck", "sopht/utils/io.py", "            self.lagrangian_grid_count += 1", "            self.lagrangian_grid_count = +1", ["C18", "C17"]),
     ("diffusion-flux-2d-ghost-reset-on-operand", E2 + "diffusion_flux_2d.py", "                set_fixed_val_at_boundaries_2d(field=diffusion_flux, fixed_val=0)", "                set_fixed_val_at_boundaries_2d(field=field, fixed_val=0)", ["C05", "C13"]),
+    # sixth-round rules
+    ("filter-work-buffers-aliased-in-simulator", NS, "                field_buffer=self.buffer_vector_field[1],", "                field_buffer=self.buffer_scalar_field,", ["C19", "C04", "C14"]),
+    ("element-centric-transfer-halves-marker-force-in-place", ROD, "        body_flow_forces[: self.grid_dim, 1:] -= 0.5 * lag_grid_forcing_field\n        body_flow_forces[: self.grid_dim, :-1] -= 0.5 * lag_grid_forcing_field",
+     "        lag_grid_forcing_field *= 0.5\n        body_flow_forces[: self.grid_dim, 1:] -= lag_grid_forcing_field\n        body_flow_forces[: self.grid_dim, :-1] -= lag_grid_forcing_field", ["C10"]),
+    ("rigid-load-buffer-takes-body-element-type", "sopht/simulator/immersed_body/rigid_body/rigid_body_flow_interaction.py", "        body_flow_forces = np.zeros((3, 1))", "        body_flow_forces = np.zeros_like(rigid_body.position_collection)", ["C08"]),
+    ("rod-io-rebinds-registered-array", "sopht/utils/io.py", "        self.rod_element_position[...] = 0.5 * (", "        self.rod_element_position = 0.5 * (", ["C17"]),
+    ("outplane-curl-ghost-reset-default-off", E2 + "outplane_field_curl_2d.py", "    reset_ghost_zone: bool = True,", "    reset_ghost_zone: bool = False,", ["C01"]),
+    ("load-lagrangian-section-becomes-elif", "sopht/utils/io.py", "            if self.lagrangian_grids:", "            elif self.lagrangian_grids:", ["C18"]),
+    ("spread2d-skips-markers-inside-the-admissible-domain", IB + "EulerianLagrangianGridCommunicator2D.py", "        for i in range(num_lag_nodes):\n            eul_grid_field[\n                ...,",
+     "        for i in range(num_lag_nodes):\n            if np.min(nearest_eul_grid_index_to_lag_grid[:, i]) < interp_kernel_width:\n                continue\n            eul_grid_field[\n                ...,", ["C07"]),
 ]
 
 # behaviour-preserving edits: every listed check must stay silent
@@ -188,6 +198,12 @@ CONTROLS = [
     ("forcing-update-contiguous-copy-of-read-only-input", E3 + "update_vorticity_from_velocity_forcing_3d.py", "        vorticity_field: np.ndarray,\n        velocity_forcing_field: np.ndarray,\n        prefactor: float,\n    ) -> None:",
      "        vorticity_field: np.ndarray,\n        velocity_forcing_field: np.ndarray,\n        prefactor: float,\n    ) -> None:\n        velocity_forcing_field = np.ascontiguousarray(velocity_forcing_field)", ["C12", "C13", "C05"]),
     ("clock-increment-spelled-out", "sopht/simulator/flow/flow_simulators.py", "        self.time += dt", "        self.time = self.time + dt", ["C01", "C18"]),
+    ("rigid-load-buffer-explicit-float", "sopht/simulator/immersed_body/rigid_body/rigid_body_flow_interaction.py", "        body_flow_forces = np.zeros((3, 1))", "        body_flow_forces = np.zeros((3, 1), dtype=np.float64)", ["C08", "C10"]),
+    ("element-centric-transfer-halves-a-local-copy", ROD, "        body_flow_forces[: self.grid_dim, 1:] -= 0.5 * lag_grid_forcing_field\n        body_flow_forces[: self.grid_dim, :-1] -= 0.5 * lag_grid_forcing_field",
+     "        half = 0.5 * lag_grid_forcing_field\n        body_flow_forces[: self.grid_dim, 1:] -= half\n        body_flow_forces[: self.grid_dim, :-1] -= half", ["C10", "C08"]),
+    ("filter-work-buffer-through-a-view", NS, "                field_buffer=self.buffer_vector_field[1],", "                field_buffer=self.buffer_vector_field[1].view(),", ["C19"]),
+    ("spread2d-skips-markers-whose-window-leaves-the-grid", IB + "EulerianLagrangianGridCommunicator2D.py", "        for i in range(num_lag_nodes):\n            eul_grid_field[\n                ...,",
+     "        for i in range(num_lag_nodes):\n            if np.min(nearest_eul_grid_index_to_lag_grid[:, i]) < interp_kernel_width - 1:\n                continue\n            eul_grid_field[\n                ...,", ["C07", "C06"]),
 ]
 
 
